@@ -38,7 +38,14 @@ def run_A(ck, quals, canaries, prog=None):
         ov = mutate(prog, cn['mod'], cn['old'], cn['new'])
         cjobs.append(None if ov is None else (cn['fn'], ov))
     allj = jobs + [j for j in cjobs if j is not None]
+    # regression self-test for a soundness hole found by seed C04d: a function replaced by a decorator's result must not be verified through its body
+    wq = f'{OPT}:generate_accessible_color'
+    wov = mutate(prog, OPT, 'def generate_accessible_color(', 'def _passthrough_for_the_self_test(f):\n    return f\n\n\n@_passthrough_for_the_self_test\ndef generate_accessible_color(') if wq in quals else None
+    if wov is not None: allj = allj + [(wq, wov)]
     reps = verify_many(allj)
+    if wov is not None:
+        wrep = reps.pop()
+        ck.self_test('a decorated function is not taken for its undecorated body', 'wrapped by decorator' in str(wrep.get('error')), str(wrep.get('error'))[:120])
     ck.absorb_A(reps[:len(jobs)])
     it = iter(reps[len(jobs):])
     ck.absorb_canaries(canaries, [None if j is None else next(it) for j in cjobs])
